@@ -23,6 +23,12 @@ def floors(tier):
 
 
 def gen_cases(tier, seed):
+    pseudo = symfam.gen_pseudo_cases(tier, seed, 15, 1, n_pres=2) if tier == "quick" else \
+        symfam.gen_pseudo_cases(tier, seed, 15, 5, n_pres=3, groups=range(1, 195))
+    return _gen_cases(tier, seed) + pseudo
+
+
+def _gen_cases(tier, seed):
     if tier == "quick":
         return symfam.gen_cases(tier, seed, 15, per_group=1, n_pres=3, extra_random=20)
     return symfam.gen_cases(tier, seed, 15, per_group=5, n_pres=6, extra_random=300)
